@@ -32,6 +32,7 @@ void track(const void* a) { if (g_ntracked < 256) g_tracked[g_ntracked++] = a; }
 void untrack_all() { g_ntracked = 0; }
 void focus_only(bool on) { g_focus = on; }
 bool is_tracked(const void* a) { for (int i = 0; i < g_ntracked; i++) if (g_tracked[i] == a) return true; return false; }
+bool self_is_daemon() { return tls_lt && tls_lt->daemon; }
 int self_id() { return tls_lt ? tls_lt->id : -1; }
 int num_blocked() { int c = 0; if (g_sched) for (auto* lt : g_sched->lts) if (lt->state.load() == ST_BLOCKED) ++c; return c; }
 bool daemons_asleep() { int n = 0; if (g_sched) for (auto* lt : g_sched->lts) if (lt->daemon && lt->state.load() != ST_DONE) { if (lt->state.load() != ST_BLOCKED) return false; ++n; } return n > 0; }
